@@ -25,9 +25,40 @@ check("C18", "histbfs", "model_checking",
       "Bounded depth (5 quick / 7 thorough) and list lengths; values {1,2,3,\"a\"}.",
       "explicit-state BFS of operation histories on real tables with a slice model; exhaustive small-scope sort inputs", "DESIGN.md §4 C18")
 
+check("C02", "luaref+gen+glrun", "exploration",
+      "Complete product of callee shape x argument list x result context x callee kind (Lua, host Go function, __call object, method with near and far constant, pcall) x ordinary/tail position; every select(n, ...) and unpack(t, i, j) over small ranges; multi-result counts around the 50-item flush boundary; tail-recursive loops for each callee kind with white-box (call depth, registry top) snapshots per iteration and 10^6 iterations under CallStackSize 8. Each program runs on gopher-lua and on the reference interpreter.",
+      "Bounded numbers of parameters/arguments (0-4) and results; luaref is the reading of Lua 5.1 call/return adjustment; periodicity of the white-box snapshot stands in for 'without bound'.",
+      "small-scope exhaustive enumeration of call shapes against an executable reference model; state-recurrence argument for proper tail calls", "DESIGN.md §4 C02")
+check("C03", "luaref+gen+glrun", "exploration",
+      "Product of capture site x captured variable kind x exit route (fall-through, break, goto out/continue, return, tail call, error/fault under pcall/xpcall, coroutine abandoned/dying/returning) x iteration of the exit x what runs afterwards x use (read, write through one closure and read through another), plus variables of live frames captured before a protected call fails, plus getfenv/setfenv programs; reference interpreter models variables as heap cells; white-box check that no open upvalue points above the live frames after a protected call.",
+      "Bounded loop counts (3) and nesting; instruction-level fault injection for closures is part of C05.",
+      "small-scope exhaustive enumeration of closure programs against an executable reference model + white-box invariant", "DESIGN.md §4 C03")
+check("C04", "luaref+gen+glrun", "exploration",
+      "Complete product of event x ordered operand pair (15 operands: tables/userdata sharing or not sharing metatables and handlers, plain values) x operand form (local, constant, upvalue) x context (value, branch, tail) x handler result; __index/__newindex function and table chains incl. depth 99/100/101; __call in every call context; __tostring, __metatable, raw functions. Handlers log event, argument identities and order.",
+      "luaref implements the manual's §2.8 pseudo-code; not judged: __len on tables, second argument of __unm, __gc/__mode, callable tables as handlers, setmetatable argument checking.",
+      "small-scope exhaustive enumeration of metamethod dispatch against an executable reference model", "DESIGN.md §4 C04")
+check("C06", "luaref+histbfs", "model_checking",
+      "Explicit-state BFS over coroutine drive histories (create/wrap over 15 body kinds, resume/call of any of 3 slots with 0/1/3 payload values, generic-for over a wrapped generator); after every step the status of every coroutine and coroutine.running() are observed; each history is rendered as a program and executed from scratch on gopher-lua and on the reference interpreter; states merged on the model's abstract state; plus the same bodies driven through LState.NewThread/Resume.",
+      "Histories complete to depth 3 (quick) / 5 (thorough) plus one level of resumes; not generated: yield across pcall/metamethod/iterator boundaries and resume of a normal coroutine (implementation-defined in 5.1).",
+      "explicit-state BFS over operation histories, every trace replayed on the implementation and compared with an executable reference model", "DESIGN.md §4 C06")
+check("C07", "bcverify", "exploration",
+      "Structural bytecode verifier written from opcode.go/vm.go (independent of the compiler) applied to every prototype of: the repository's test scripts, boundary families around every documented limit (locals, parameters, upvalues, constants, constructor sizes, nesting, jump distances) and every sequence of <=3 statement kinds in every block position; accepted programs are also executed and compared with predicted results; 39 verifier rules are self-tested on damaged prototypes.",
+      "Bounded program sizes; operand classes already out of the declared register range on the unchanged tree are known findings (one per root cause), every other class is a violation.",
+      "exhaustive enumeration of program families + structural verification of every compiled prototype", "DESIGN.md §4 C07")
+check("C10", "histbfs", "model_checking",
+      "BFS over value-stack operation histories (Push/Pop/Get/SetTop/Insert/Remove/Replace/GetTop with boundary indices) inside host functions at activation depth 0-3 with 0-3 arguments on fixed and growing registries against a Go slice, callers' registers compared bit-for-bit; complete call-contract matrix (nargs x NRet x results x callee kind x entry point x outcome); object-level API calls compared with the same operation as a Lua chunk over all operand pairs incl. handler logs.",
+      "Bounded history depth (6 quick / 8 thorough merged; 3/4 unmerged); Insert at non-positive or beyond-top indices only checked for list-ness.",
+      "explicit-state BFS of API operation histories on real states with a slice model; exhaustive call/operand matrices", "DESIGN.md §4 C10")
+check("C20", "histbfs", "model_checking",
+      "BFS over require/preload histories (3 module names x 6 loader sources x 11 loader behaviours incl. mutual and self requires; require, pcall(require), re-registration, package.loaded[x]=nil, RegisterModule), each history replayed on a fresh LState with real files, against a Go model of ll_require; result identity, loader invocation log, error classes/messages and package.loaded read-back compared on every transition; plus host-module/open-order scenarios.",
+      "Bounded depth (2-5 quick, 3-7 thorough depending on alphabet); which of returned/stored value wins is not judged.",
+      "explicit-state BFS of operation histories on real states with a reference model", "DESIGN.md §4 C20")
+
 engines = [
  {"name":"histbfs","path":"internal/props (c09.go, c18.go, ...)","kind_free_text":"explicit-state BFS over operation histories; successor = replay on a fresh real object + 1 operation; state key = reference model + white-box layout"},
  {"name":"luaref+gen+glrun","path":"internal/luaref, internal/glrun, internal/props/progrun.go","kind_free_text":"bounded-exhaustive program generators, reference Lua 5.1 interpreter, trace comparison with gopher-lua"},
+ {"name":"luaref+histbfs","path":"internal/props/c06.go","kind_free_text":"BFS over histories rendered as programs, executed on gopher-lua and on the reference interpreter"},
+ {"name":"bcverify","path":"internal/bcverify, internal/props/c07*.go","kind_free_text":"structural bytecode verifier over exhaustively generated program families"},
  {"name":"inputenum","path":"internal/props","kind_free_text":"exhaustive enumeration of inputs over small alphabets against reference definitions"},
 ]
 for e in engines:
